@@ -132,7 +132,8 @@ class Check(PropertyCheck):
                   "count the disk content loads as an initial segment of the written flows (crash_consistent_any_buffering, "
                   "crash_prefix_every_hook_sequence, explicit_save_crash_consistent); at every hook boundary the OS holds the whole "
                   "concatenation and the buffer is empty because FilteredFlowWriter.add flushes (hook_boundary_flushed, "
-                  "stream_disk_complete_after_each_hook); an explicit save is complete after close "
+                  "stream_disk_complete_after_each_hook; with ONE hypothesis about the whole run instead of one per hook: "
+                  "stream_file_complete_at_every_hook, stream_disk_complete_at_every_hook); an explicit save is complete after close "
                   "(explicit_save_complete_after_close); CPython's BufferedWriter.write policy is transcribed and covered "
                   "(cpython_buffered_explicit_save) and its on-disk sizes are predicted in the tie. Tied to the code by "
                   "truncating real flow files of every flow type at every byte offset, by driving the real Save addon "
